@@ -133,3 +133,20 @@ func (st *State) VfHasRouter(ip netip.Addr) bool {
 
 // VfSetSignLatest puts the signed-frame timestamp handler of the session into a given state.
 func (s *Session) VfSetSignLatest(t time.Time) { s.Signing().seqHandler.latest = t }
+
+// VfSeqAccepts reports whether the real replay window, in the given snapshot
+// state (see VfSeqSnap), accepts seq in the regular (prio=false) or priority class.
+func VfSeqAccepts(snap [4]uint64, seq uint32, prio bool) bool {
+	sh := NewSequenceHandler()
+	if prio {
+		sh.highest, sh.bitMap = uint32(snap[2]), snap[3]
+	} else {
+		sh.highest, sh.bitMap = uint32(snap[0]), snap[1]
+	}
+	return sh.Check(seq) == nil
+}
+
+// VfOutCounters returns the sender-side sequence counters (regular, priority).
+func (s *Session) VfOutCounters() (regl, prio uint32) {
+	return s.encryption.reglSeqHandler.outSeq.Load(), s.encryption.prioSeqHandler.outSeq.Load()
+}
